@@ -10,12 +10,13 @@ def main(tier):
         'huge / zero volume): rock cells partition the non-boundary blocks, source cell indices, EOS detection by every route',
         trust=('pyvc heap model of t2data / t2grid / t2generator objects; MOP option array of 24 symbolic digits 0..9', 'z3'),
         assume=('whole-model obligations: the full data object of the C01 whole-file obligation (every section kind of the flavour, symbolic numeric content, plus generators of convertible / unsupported / duplicated-key types), AUTOUGH2 -> TOUGH2 (also MP) and TOUGH2 -> AUTOUGH2, then write() / read() over the tape file system',
-                'other section subsets, rocks_json / generators_json: bounded',
+                'rocks_json: 2x1x2 geometry, atmosphere blocks of huge volume; other section subsets, generators_json / boundaries_json: bounded',
                 'EWTD tracer diffusion detection uses numpy allclose: bounded'),
         explanation='clause -> evidence: convert_to_TOUGH2 leaves no simulator / LINEQ / short-output section and no EOS name, MOP(21) from the linear solver (0 for MP), MOP 22-24 cleared, MOP 10/12 value 2 cleared, '
                     'every other MOP digit untouched (frame over all 24 symbolic digits), short output becomes history, conductivity rescaled only as documented; convert_to_AUTOUGH2 is the mirror image and never raises '
                     'for any solver type 0..9; unsupported generators are deleted from list and lookup, CO2 becomes COM2, the rest untouched, lookup consistent under duplicated names (all 7^3 type choices); '
                     'eos_json recognises every supported EOS given explicitly, via MULTI, via the simulator string, also with an empty MULTI eos, and raises when none: PROVED on the real methods. '
                     'On the full model the real convert_to_TOUGH2 / convert_to_AUTOUGH2 leave a model that declares the target flavour, holds nothing specific to the old one, keeps grid and rock types, keeps the generators of supported types in order (CO2 -> COM2) and deletes the others from list and lookup, turns short-output blocks into history blocks and back, and survives write() -> read() -> write() over the tape file system: PROVED (3 programs). '
-                    'Other section subsets, Waiwera cell indexing: BOUNDED.',
+                    'rocks_json on the grid of a real rectangular geometry (3 atmosphere types, two rock types, one block of symbolic volume): every non-boundary block is in exactly the cell list of its own rock type under its cell index, boundary blocks in none: PROVED. '
+                    'Other section subsets, sources and boundaries of the Waiwera export: BOUNDED.',
         extra=[(c20b, c20b.PROGRAMS)])
